@@ -394,6 +394,12 @@ def run(repo, chk):
             chk.expect(ok, 'C09.M4', 'push_expr[ByteToInt]', 'widening zeroes a word, then pushes the byte into its low end', GEN)
             break
 
+    # explicit casts survive in the typechecked tree (a narrowing cast is never optimised away) - shared with C07.K1
+    if chk.__class__.__name__ == 'Check':
+        from . import c07
+        from ..report import Remap
+        c07.run(repo, Remap(chk, {'C07.K1': 'C09.M4'}))
+
     # ---------------- M5 ---------------------------------------------------------------------
     bases = repo.class_bases(OPERATORS)
 
